@@ -1,5 +1,7 @@
 import Mathlib.Tactic.Ring
 import Mathlib.Tactic.Linarith
+import Mathlib.Tactic.FieldSimp
+import Mathlib.Tactic.Positivity
 import Mathlib.Algebra.Order.Field.Basic
 import M3d.Model.Curves
 /-!
@@ -112,5 +114,41 @@ theorem evalFrom_eq_walk (sqrt : K → K) (segs : List (Seg K)) (hne : segs ≠ 
               · exact hjn h1
               · exact hlj h2
             rw [if_neg c1, if_neg c2, List.getD_cons_succ, List.getD_cons_succ]
+
+/-! ### bisectionSearch -/
+
+/-- Loop invariant of `bisectionSearch`: the bracket `f lo ≤ x < f hi` is kept and halves. -/
+theorem bisectLoop_inv (f : K → K) (x : K) (n : ℕ) (lo hi : K) (h1 : f lo ≤ x) (h2 : ¬ f hi ≤ x) :
+    f (bisectLoop f x n lo hi).1 ≤ x ∧ ¬ f (bisectLoop f x n lo hi).2 ≤ x ∧
+      (bisectLoop f x n lo hi).2 - (bisectLoop f x n lo hi).1 = (hi - lo) / 2 ^ n ∧
+      (lo ≤ hi → lo ≤ (bisectLoop f x n lo hi).1 ∧ (bisectLoop f x n lo hi).2 ≤ hi) ∧
+      (hi ≤ lo → hi ≤ (bisectLoop f x n lo hi).2 ∧ (bisectLoop f x n lo hi).1 ≤ lo) := by
+  induction n generalizing lo hi with
+  | zero => simp [bisectLoop, h1, h2]
+  | succ n ih =>
+    simp only [bisectLoop]
+    push_cast
+    by_cases h : f ((lo + hi) / 2) ≤ x
+    · rw [if_pos h]
+      obtain ⟨a, b, c, d, e⟩ := ih ((lo + hi) / 2) hi h h2
+      refine ⟨a, b, ?_, ?_, ?_⟩
+      · rw [c, pow_succ]; field_simp; ring
+      · intro hle
+        obtain ⟨d1, d2⟩ := d (by linarith)
+        exact ⟨by linarith, d2⟩
+      · intro hle
+        obtain ⟨e1, e2⟩ := e (by linarith)
+        exact ⟨e1, by linarith⟩
+    · rw [if_neg h]
+      obtain ⟨a, b, c, d, e⟩ := ih lo ((lo + hi) / 2) h1 h
+      refine ⟨a, b, ?_, ?_, ?_⟩
+      · rw [c, pow_succ]; field_simp; ring
+      · intro hle
+        obtain ⟨d1, d2⟩ := d (by linarith)
+        exact ⟨d1, by linarith⟩
+      · intro hle
+        obtain ⟨e1, e2⟩ := e (by linarith)
+        exact ⟨by linarith, e2⟩
+
 
 end M3d.Curves
